@@ -15,8 +15,10 @@ def ScaleOK (sc : Scale Rat) : Prop := ∀ nrm : Rat, sc.max 1 nrm = 0
 /-- sorted by mean, non-increasing -/
 def SortedD (l : List C) : Prop := l.Pairwise (fun a b => b.mean ≤ a.mean)
 
-theorem cadd_mean (a b : C) :
-    (cadd a b).mean = a.mean + (b.mean - a.mean) * (b.weight : Rat) / ((a.weight + b.weight : Nat) : Rat) := rfl
+theorem cadd_mean {safe : Bool} (a b : C) :
+    (cadd safe a b).mean = a.mean + (b.mean - a.mean) * (b.weight : Rat) / ((a.weight + b.weight : Nat) : Rat) := by
+  -- over Rat every value is finite: the overflow fallback of the repaired shape is never taken
+  simp [cadd, caddMean]
 
 theorem frac_bounds (aw bw : Nat) : (0 : Rat) ≤ (bw : Rat) / ((aw + bw : Nat) : Rat) ∧ (bw : Rat) / ((aw + bw : Nat) : Rat) ≤ 1 := by
   have h0 : (0 : Rat) ≤ (bw : Rat) := Nat.cast_nonneg _
@@ -24,30 +26,30 @@ theorem frac_bounds (aw bw : Nat) : (0 : Rat) ≤ (bw : Rat) / ((aw + bw : Nat) 
   have h2 : (bw : Rat) ≤ ((aw + bw : Nat) : Rat) := by exact_mod_cast Nat.le_add_left bw aw
   exact ⟨div_nonneg h0 h1, div_le_one_of_le₀ h2 h1⟩
 
-theorem cadd_between (a b : C) (h : a.mean ≤ b.mean) : a.mean ≤ (cadd a b).mean ∧ (cadd a b).mean ≤ b.mean := by
+theorem cadd_between {safe : Bool} (a b : C) (h : a.mean ≤ b.mean) : a.mean ≤ (cadd safe a b).mean ∧ (cadd safe a b).mean ≤ b.mean := by
   obtain ⟨t0, t1⟩ := frac_bounds a.weight b.weight
   rw [cadd_mean, mul_div_assoc]
   constructor <;> nlinarith
 
-theorem cadd_between' (a b : C) (h : b.mean ≤ a.mean) : b.mean ≤ (cadd a b).mean ∧ (cadd a b).mean ≤ a.mean := by
+theorem cadd_between' {safe : Bool} (a b : C) (h : b.mean ≤ a.mean) : b.mean ≤ (cadd safe a b).mean ∧ (cadd safe a b).mean ≤ a.mean := by
   obtain ⟨t0, t1⟩ := frac_bounds a.weight b.weight
   rw [cadd_mean, mul_div_assoc]
   constructor <;> nlinarith
 
-theorem cadd_lo (a b : C) (lo : Rat) (ha : lo ≤ a.mean) (hb : lo ≤ b.mean) : lo ≤ (cadd a b).mean := by
+theorem cadd_lo {safe : Bool} (a b : C) (lo : Rat) (ha : lo ≤ a.mean) (hb : lo ≤ b.mean) : lo ≤ (cadd safe a b).mean := by
   rcases le_total a.mean b.mean with h | h
   · exact le_trans ha (cadd_between a b h).1
   · exact le_trans hb (cadd_between' a b h).1
 
-theorem cadd_hi (a b : C) (hi : Rat) (ha : a.mean ≤ hi) (hb : b.mean ≤ hi) : (cadd a b).mean ≤ hi := by
+theorem cadd_hi {safe : Bool} (a b : C) (hi : Rat) (ha : a.mean ≤ hi) (hb : b.mean ≤ hi) : (cadd safe a b).mean ≤ hi := by
   rcases le_total a.mean b.mean with h | h
   · exact le_trans (cadd_between a b h).2 hb
   · exact le_trans (cadd_between' a b h).2 ha
 
-variable (sc : Scale Rat) (kc cwD : Rat)
+variable (safe : Bool) (sc : Scale Rat) (kc cwD : Rat)
 
 theorem cluster_lo (lo : Rat) (xs : List C) : ∀ (first : Bool) (cur : C) (wsf : Rat),
-    lo ≤ cur.mean → (∀ x ∈ xs, lo ≤ x.mean) → ∀ c ∈ cluster sc kc cwD first cur wsf xs, lo ≤ c.mean := by
+    lo ≤ cur.mean → (∀ x ∈ xs, lo ≤ x.mean) → ∀ c ∈ cluster safe sc kc cwD first cur wsf xs, lo ≤ c.mean := by
   induction xs with
   | nil => intro first cur wsf hc _ c hmem; simp [cluster] at hmem; subst hmem; exact hc
   | cons x xs ih =>
@@ -56,13 +58,13 @@ theorem cluster_lo (lo : Rat) (xs : List C) : ∀ (first : Bool) (cur : C) (wsf 
     have hx0 := hx x (List.mem_cons_self ..)
     have hxs : ∀ y ∈ xs, lo ≤ y.mean := fun y hy => hx y (List.mem_cons_of_mem _ hy)
     split at hmem
-    · exact ih false (cadd cur x) wsf (cadd_lo cur x lo hc hx0) hxs c hmem
+    · exact ih false (cadd safe cur x) wsf (cadd_lo cur x lo hc hx0) hxs c hmem
     · rcases List.mem_cons.1 hmem with rfl | hmem
       · exact hc
       · exact ih false x _ hx0 hxs c hmem
 
 theorem cluster_hi (hi : Rat) (xs : List C) : ∀ (first : Bool) (cur : C) (wsf : Rat),
-    cur.mean ≤ hi → (∀ x ∈ xs, x.mean ≤ hi) → ∀ c ∈ cluster sc kc cwD first cur wsf xs, c.mean ≤ hi := by
+    cur.mean ≤ hi → (∀ x ∈ xs, x.mean ≤ hi) → ∀ c ∈ cluster safe sc kc cwD first cur wsf xs, c.mean ≤ hi := by
   induction xs with
   | nil => intro first cur wsf hc _ c hmem; simp [cluster] at hmem; subst hmem; exact hc
   | cons x xs ih =>
@@ -71,13 +73,13 @@ theorem cluster_hi (hi : Rat) (xs : List C) : ∀ (first : Bool) (cur : C) (wsf 
     have hx0 := hx x (List.mem_cons_self ..)
     have hxs : ∀ y ∈ xs, y.mean ≤ hi := fun y hy => hx y (List.mem_cons_of_mem _ hy)
     split at hmem
-    · exact ih false (cadd cur x) wsf (cadd_hi cur x hi hc hx0) hxs c hmem
+    · exact ih false (cadd safe cur x) wsf (cadd_hi cur x hi hc hx0) hxs c hmem
     · rcases List.mem_cons.1 hmem with rfl | hmem
       · exact hc
       · exact ih false x _ hx0 hxs c hmem
 
 theorem cluster_pos (xs : List C) : ∀ (first : Bool) (cur : C) (wsf : Rat),
-    1 ≤ cur.weight → (∀ x ∈ xs, 1 ≤ x.weight) → ∀ c ∈ cluster sc kc cwD first cur wsf xs, 1 ≤ c.weight := by
+    1 ≤ cur.weight → (∀ x ∈ xs, 1 ≤ x.weight) → ∀ c ∈ cluster safe sc kc cwD first cur wsf xs, 1 ≤ c.weight := by
   induction xs with
   | nil => intro first cur wsf hc _ c hmem; simp [cluster] at hmem; subst hmem; exact hc
   | cons x xs ih =>
@@ -86,13 +88,13 @@ theorem cluster_pos (xs : List C) : ∀ (first : Bool) (cur : C) (wsf : Rat),
     have hx0 := hx x (List.mem_cons_self ..)
     have hxs : ∀ y ∈ xs, 1 ≤ y.weight := fun y hy => hx y (List.mem_cons_of_mem _ hy)
     split at hmem
-    · exact ih false (cadd cur x) wsf (by simp; omega) hxs c hmem
+    · exact ih false (cadd safe cur x) wsf (by simp; omega) hxs c hmem
     · rcases List.mem_cons.1 hmem with rfl | hmem
       · exact hc
       · exact ih false x _ hx0 hxs c hmem
 
 theorem cluster_sorted (xs : List C) : ∀ (first : Bool) (cur : C) (wsf : Rat),
-    Sorted (cur :: xs) → Sorted (cluster sc kc cwD first cur wsf xs) := by
+    Sorted (cur :: xs) → Sorted (cluster safe sc kc cwD first cur wsf xs) := by
   induction xs with
   | nil => intro first cur wsf _; simp [cluster, Sorted]
   | cons x xs ih =>
@@ -110,10 +112,10 @@ theorem cluster_sorted (xs : List C) : ∀ (first : Bool) (cur : C) (wsf : Rat),
     · unfold Sorted
       rw [List.pairwise_cons]
       refine ⟨?_, ih false x _ (by unfold Sorted; rw [List.pairwise_cons]; exact ⟨h2, h3⟩)⟩
-      exact cluster_lo sc kc cwD cur.mean xs false x _ hcx (fun y hy => h1 y (List.mem_cons_of_mem _ hy))
+      exact cluster_lo safe sc kc cwD cur.mean xs false x _ hcx (fun y hy => h1 y (List.mem_cons_of_mem _ hy))
 
 theorem cluster_sortedD (xs : List C) : ∀ (first : Bool) (cur : C) (wsf : Rat),
-    SortedD (cur :: xs) → SortedD (cluster sc kc cwD first cur wsf xs) := by
+    SortedD (cur :: xs) → SortedD (cluster safe sc kc cwD first cur wsf xs) := by
   induction xs with
   | nil => intro first cur wsf _; simp [cluster, SortedD]
   | cons x xs ih =>
@@ -131,11 +133,11 @@ theorem cluster_sortedD (xs : List C) : ∀ (first : Bool) (cur : C) (wsf : Rat)
     · unfold SortedD
       rw [List.pairwise_cons]
       refine ⟨?_, ih false x _ (by unfold SortedD; rw [List.pairwise_cons]; exact ⟨h2, h3⟩)⟩
-      exact cluster_hi sc kc cwD cur.mean xs false x _ hcx (fun y hy => h1 y (List.mem_cons_of_mem _ hy))
+      exact cluster_hi safe sc kc cwD cur.mean xs false x _ hcx (fun y hy => h1 y (List.mem_cons_of_mem _ hy))
 
 /-- the explicit protection of the first element: the head of the output is the first input element -/
 theorem cluster_head (xs : List C) (cur : C) (wsf : Rat) :
-    (cluster sc kc cwD true cur wsf xs).head? = some cur := by
+    (cluster safe sc kc cwD true cur wsf xs).head? = some cur := by
   cases xs with
   | nil => rfl
   | cons x xs => simp [cluster]
@@ -159,7 +161,7 @@ theorem addThis_last (hsc : ScaleOK sc) (cw n : Nat) (cur x : C) (hpos : 1 ≤ c
 /-- the last input element is never merged into its predecessor -/
 theorem cluster_getLast (hsc : ScaleOK sc) (cw : Nat) (xs : List C) : ∀ (first : Bool) (cur : C) (n : Nat),
     xs ≠ [] → 1 ≤ cur.weight → (∀ c ∈ xs, 1 ≤ c.weight) → cw = n + cur.weight + sumWeights xs →
-    (cluster sc kc (cw : Rat) first cur (n : Rat) xs).getLast? = xs.getLast? := by
+    (cluster safe sc kc (cw : Rat) first cur (n : Rat) xs).getLast? = xs.getLast? := by
   induction xs with
   | nil => intro _ _ _ h; exact absurd rfl h
   | cons x xs ih =>
@@ -176,9 +178,9 @@ theorem cluster_getLast (hsc : ScaleOK sc) (cw : Nat) (xs : List C) : ∀ (first
       have := addThis_last sc kc hsc cw n cur x (by omega) (by simpa using hcw)
       simp [this, cluster]
     · split
-      · rw [ih false (cadd cur x) n hnil (by simp; omega) hxs (by simp at hcw ⊢; omega)]
+      · rw [ih false (cadd safe cur x) n hnil (by simp; omega) hxs (by simp at hcw ⊢; omega)]
         exact (getLast?_cons_ne x xs hnil).symm
-      · rw [getLast?_cons_ne _ _ (cluster_ne_nil sc kc (cw : Rat) xs false x _)]
+      · rw [getLast?_cons_ne _ _ (cluster_ne_nil safe sc kc (cw : Rat) xs false x _)]
         have hcast : ((n : Rat) +. Num.ofNat cur.weight) = ((n + cur.weight : Nat) : Rat) := by simp
         rw [hcast, ih false x (n + cur.weight) hnil hx0 hxs (by simp at hcw ⊢; omega)]
         exact (getLast?_cons_ne x xs hnil).symm
